@@ -5,6 +5,7 @@ import (
 	"fmt"
 	"runtime"
 	"strconv"
+	"strings"
 	"sync"
 	"sync/atomic"
 	"time"
@@ -165,6 +166,12 @@ type Env struct {
 
 	inflight    atomic.Int32
 	MaxInflight atomic.Int32
+
+	// Census (C03): every user function counts the goroutines that were
+	// started by the scheduler, the cff runtime or generated code (stack dump
+	// of the process); MaxG keeps the maximum.
+	Census bool
+	MaxG   atomic.Int32
 
 	elemOut map[[2]int]Outcome
 	Ems     []*RecEmitter
@@ -349,6 +356,23 @@ func (e *Env) begin(unit, elem, idx int, key string, ctx context.Context, ins []
 		old := e.MaxInflight.Load()
 		if cur <= old || e.MaxInflight.CompareAndSwap(old, cur) {
 			break
+		}
+	}
+	if e.Census {
+		// goroutines started by the scheduler, the cff runtime or generated
+		// code (exiting goroutines no longer appear in a stack dump, unlike
+		// in runtime.NumGoroutine)
+		n := int32(0)
+		for _, g := range DumpGoroutines() {
+			if strings.Contains(g.Text, "created by go.uber.org/cff") || strings.Contains(g.Text, "created by vcase/p") {
+				n++
+			}
+		}
+		for {
+			old := e.MaxG.Load()
+			if n <= old || e.MaxG.CompareAndSwap(old, n) {
+				break
+			}
 		}
 	}
 	ev.Start = Seq()
